@@ -20,6 +20,11 @@ Ops     : ("align", member letter, noise level): the target is member(source) + 
           from_vector / from_vector_inplace of the constructor result's parameters then set_target (vectorizable
           classes), set_rotation_matrix then set_target, the module-level optimal_rotation_matrix /
           procrustes_alignment - each with the full oracle and exact agreement with the constructor route.
+          ("perm", order, member, noise): source and target rows permuted consistently (trilist relabelled): full
+          oracle, and the same map as for the original order up to rounding.
+          ("order", perm, points) on the live alignment (self loops): after apply(X), apply(X[perm]) on the same
+          object must equal apply(X)[perm] exactly (X = the source landmarks via aligned_source(), and a grid of
+          dyadic coordinates inside the domain), and apply(X) again the first answer.
           ("refuse", kind) on the live alignment of a level-1 state (self loops): set_target with n+1 / n-1 points
           or another dimensionality, apply to points of another dimensionality, PWA apply with a point outside
           every source triangle (plain and batched), constructor calls with mismatched sizes / dimensionalities,
@@ -86,6 +91,22 @@ ROUTES_ALL = ("set_target:from-source", "set_target:from-other", "copy", "copy+s
 ROUTES_VECTOR = ("from_vector", "from_vector_inplace")  # then set_target(T); where the class is vectorizable
 ROUTE_NAMES = ROUTES_ALL + ROUTES_VECTOR + ("set_rotation_matrix", "function")
 NON_ALIGNMENT = {"Tr": "Translation", "US": "UniformScale", "Rot": "Rotation", "RotM": "Rotation", "Sim": "Similarity", "SimM": "Similarity", "SimNR": "Similarity", "SimNRM": "Similarity", "Aff": "Affine"}
+
+
+PERMS = ("reversed", "rot1", "shuffle")
+
+
+def permutation(m, name):
+    """fixed permutations of range(m): reversed, rotated by one, a fixed shuffle i -> (a*i + 3) mod m."""
+    idx = np.arange(m)
+    if name == "reversed":
+        return idx[::-1].copy()
+    if name == "rot1":
+        return np.roll(idx, 1)
+    for a in (7, 5, 11, 3, 13, 17):
+        if math.gcd(a, m) == 1 and a % m != 1:
+            return (a * idx + 3) % m
+    return np.roll(idx, 2)
 
 
 def routes_of(cls, d):
@@ -641,6 +662,11 @@ class C07(Check):
                         if fs == "u8" and ft == "u8" and m[0] not in ("sc", "arb"):
                             continue  # the image must stay inside the range of the unsigned type
                         out.append(("alignf", m, nz, fs, ft))
+            # the same correspondences given in another order (source and target permuted consistently)
+            for pn in ("reversed", "shuffle"):
+                for nz in NOISE_FORM:
+                    for m in member_letters(d, "small"):
+                        out.append(("perm", pn, m, nz))
             # alternate public routes to the same alignment
             for rt in routes_of(cls, d):
                 for nz in NOISE_FORM:
@@ -664,6 +690,8 @@ class C07(Check):
             if cls == "Aff":
                 out.append(("refuse", "construct:singular"))
             out += [("recheck",)]
+            # order letters: the same points queried again in another row order on the same live object
+            out += [("order", pn, kind) for kind in ("source", "grid") for pn in PERMS]
         if self.tier != "thorough":
             return out
         if not st["chain_ok"]:
@@ -788,6 +816,10 @@ class C07(Check):
             return self._apply_recheck(st, verify)
         if op[0] == "route":
             return self._apply_route(st, op, verify)
+        if op[0] == "order":
+            return self._apply_order(st, op, verify)
+        if op[0] == "perm":
+            return self._apply_perm(st, op, verify)
         cls, d = st["cls"], st["d"]
         if op[0] == "alignf":
             _, member, noise, fs, ft = op
@@ -957,6 +989,126 @@ class C07(Check):
         st["chain_ok"] = False
         st["live"] = {"al": al, "src": src, "tgt": tgt, "s": s, "t": t, "member": member, "noise": noise, "forms": ("route", route), "tri": tri}
         st["tkey"] = (obs_key(t), "route", route)
+        return fails
+
+    # ------------------------------------------------------------------ order / permutation letters
+    def _grid(self, st, lv):
+        """probe points with dyadic coordinates (multiples of 1/2: sums are exact in any order, like integer pixel
+        coordinates) inside the domain of the live alignment (strictly inside a source triangle for a PWA)."""
+        s, d = lv["s"], st["d"]
+        lo, hi = np.ceil(s.min(axis=0) * 2) / 2, np.floor(s.max(axis=0) * 2) / 2
+        axes = [np.arange(lo[i], hi[i] + 0.25, 0.5) for i in range(d)]
+        pts = np.array(np.meshgrid(*axes, indexing="ij")).reshape(d, -1).T
+        if st["cls"] in PWA:
+            tri = np.asarray(lv["al"].trilist)
+            keep = []
+            for p_ in pts:
+                inside = False
+                for a, b, c in tri:
+                    m = np.array([s[b] - s[a], s[c] - s[a]]).T
+                    uv = np.linalg.solve(m, p_ - s[a])
+                    if min(uv[0], uv[1], 1 - uv[0] - uv[1]) > 1e-3:
+                        inside = True
+                        break
+                keep.append(inside)
+            pts = pts[np.array(keep, dtype=bool)]
+        return np.ascontiguousarray(pts[:: max(1, len(pts) // 12)][:12])
+
+    def _apply_order(self, st, op, verify):
+        from menpo.shape import PointCloud
+
+        if not verify:
+            return []
+        _, pn, kind = op
+        lv = st["live"]
+        al = lv["al"]
+        where = "%s/%dd" % (st["cls"], st["d"])
+        if kind == "source":
+            x = lv["s"].copy()
+            y = np.asarray(al.aligned_source().points).copy()
+        else:
+            x = self._grid(st, lv)
+            if len(x) < 3:
+                self.note("order:grid-too-small")
+                return []
+            y = np.asarray(al.apply(x.copy())).copy()
+        perm = permutation(len(x), pn)
+        xp = np.ascontiguousarray(x[perm])
+        yp = np.asarray(al.apply(xp.copy())).copy()  # the very next call on the same object
+        yc = np.asarray(al.apply(PointCloud(xp.copy())).points).copy()
+        y2 = np.asarray(al.apply(x.copy())).copy()
+        self.note("order:%s:%s" % (kind, pn))
+        fails = []
+        if yp.shape != y.shape or not np.array_equal(yp, y[perm]) or not np.array_equal(yc, y[perm]):
+            k = int(np.abs(yp - y[perm]).max(axis=1).argmax()) if yp.shape == y.shape else -1
+            fails.append(Failure(where, "order-independent", "%s points, %s: apply(X[perm]) != apply(X)[perm]; row %d: point %r gives %r, but gave %r when queried in the original order" % (kind, pn, k, xp[k], yp[k] if k >= 0 else None, y[perm][k] if k >= 0 else None)))
+        if not np.array_equal(y2, y):
+            fails.append(Failure(where, "order-independent", "%s points, %s: apply(X) after apply(X[perm]) differs from the first apply(X)" % (kind, pn)))
+        return fails
+
+    def _apply_perm(self, st, op, verify):
+        _, pn, member, noise = op
+        cls, d = st["cls"], st["d"]
+        s = st["S"].copy()
+        t = self._target(s, member, noise)
+        perm = permutation(len(s), pn)
+        sp, tp = np.ascontiguousarray(s[perm]), np.ascontiguousarray(t[perm])
+        self._k, self._form, self._exact = 1.0, ("f64", "f64"), True
+        tri = st["tri"]
+        trip = None
+        if tri is not None:
+            inv = np.empty(len(perm), dtype=int)
+            inv[perm] = np.arange(len(perm))
+            trip = inv[np.asarray(tri)]
+        al, src, tgt = self._construct(cls, sp, tp, trip)
+        self.note("perm:%s" % pn)
+        fails = []
+        if verify:
+            where = "%s/%dd" % (cls, d)
+            scl = max(1.0, float(np.abs(s).max()), float(np.abs(t).max()))
+
+            def bad(clause, detail):
+                fails.append(Failure(where, "%s@perm" % clause, "member=%r noise=%r n=%d order=%s: %s" % (member, noise, len(s), pn, detail)))
+
+            sub = self._oracle(cls, d, al, src, tgt, sp, tp, member, noise, st)
+            fails.extend(Failure(f.where, "%s@perm" % f.clause, f.detail) for f in sub)
+            fresh, _, _ = self._construct(cls, s, t, tri)
+            af = np.asarray(fresh.aligned_source().points)
+            ap = np.asarray(al.aligned_source().points)
+            if cls in HOMOG:
+                e = np.abs(np.asarray(al.h_matrix) - np.asarray(fresh.h_matrix)).max()
+                self._worst("perm:h_matrix", e / scl)
+                if e > TOL_RECOVER * scl:
+                    bad("order-of-pairs", "h_matrix differs by %.3g from the one fitted to the same pairs in the original order" % e)
+            elif cls in TPS:
+                probes = np.vstack([self._source(2, "g6", salt="c07-probe"), s.mean(axis=0)[None]])
+                e = np.abs(np.asarray(al.apply(probes.copy())) - np.asarray(fresh.apply(probes.copy()))).max()
+                self._worst("perm:tps", e / scl)
+                if e > TOL_TPS * scl * 10:
+                    bad("order-of-pairs", "the spline differs by %.3g on the probe points from the one fitted to the same pairs in the original order" % e)
+            else:
+                ftri = np.asarray(fresh.trilist)
+                pts = np.array([w[0] * s[a] + w[1] * s[b] + w[2] * s[c] for a, b, c in ftri for w in BARY[:4]])
+                lip = self._lipschitz(s, t, ftri)
+                e = np.abs(np.asarray(al.apply(pts.copy())) - np.asarray(fresh.apply(pts.copy()))).max()
+                self._worst("perm:pwa", e / (scl * max(1.0, lip)))
+                if e > TOL_PWA_IN * scl * max(1.0, lip):
+                    bad("order-of-pairs", "the warp differs by %.3g inside the domain from the one built from the same pairs in the original order" % e)
+            e = np.abs(ap - af[perm]).max()
+            if e > TOL_RECOVER * scl * 10:
+                bad("order-of-pairs", "aligned source differs by %.3g from the permuted aligned source of the original order" % e)
+            else:
+                self.note("perm:agrees-with-original-order")
+        try:
+            st["S"] = np.array(al.aligned_source().points, dtype=float)
+        except Exception:
+            if fails:
+                return fails
+            raise
+        st["level"] += 1
+        st["chain_ok"] = False
+        st["live"] = {"al": al, "src": src, "tgt": tgt, "s": sp, "t": tp, "member": member, "noise": noise, "forms": ("perm", pn), "tri": trip}
+        st["tkey"] = (obs_key(tp), "perm", pn)
         return fails
 
     # ------------------------------------------------------------------ refused calls on the live alignment
@@ -1579,6 +1731,8 @@ class C07(Check):
         need += ["centroid+size:%s" % c for c in ("Sim", "SimM", "SimNR", "SimNRM", "GPA")]
         need += ["form:%s>%s" % p for p in FORM_PAIRS]
         need += ["route:%s" % r for r in ROUTE_NAMES] + ["route:agrees-with-constructor"]
+        need += ["order:%s:%s" % (k, pn) for k in ("source", "grid") for pn in PERMS]
+        need += ["perm:reversed", "perm:shuffle", "perm:agrees-with-original-order"]
         need += ["route:%s:parameters-set" % r for r in ROUTES_VECTOR + ("set_rotation_matrix",)]
         need += ["refused:%s:ValueError" % k for k in ("set_target:n+1", "set_target:n-1", "set_target:dims", "apply:dims", "construct:n-mismatch", "construct:dims", "construct:3d", "gpa:one-source")]
         need += ["refused:apply:outside:TriangleContainmentError", "refused:apply:outside-batched:TriangleContainmentError", "refused:construct:singular:LinAlgError", "recheck:after-refused-calls"]
@@ -1624,6 +1778,7 @@ class C07(Check):
             "deeper levels are expanded only behind an affine-family member with noise level 0 or 0.1 and while the chained source passes the guard (distance >= %g, area >= %g, singular value >= %g)" % (GUARD_DIST, GUARD_AREA, GUARD_SV),
             "GPA: the clauses of the similarity alignment are applied to every returned transform against the target it reports; convergence itself is recorded, not demanded",
             "refused-call letters act on the live alignment built by a float64 'align' op with noise 0 or 0.1 (level 1, self loops); expected refusals: ValueError (set_target / apply / constructor with wrong size or dimensionality, TPS / PWA on 3-D data, GPA with one source), TriangleContainmentError with the exact outside mask (PWA), numpy LinAlgError (affine fit of collinear points); PWA from a 3-D PointCloud is not a letter (scipy's Qhull decides the outcome before menpo's check)",
+            "order letters: permutations reversed / rotated by one / fixed shuffle; probe grid = multiples of 1/2 inside the source's bounding box (strictly inside a source triangle for PWA, at most 12 points), whose column sums are exact in any order; permuted correspondences at construction for the single alignments (GPA: not permuted - its iteration stops at a 1e-6 threshold, so only the per-transform clauses apply)",
             "routes (level 0, reduced member alphabet x noise 0 / 0.1): %s; after from_vector / from_vector_inplace / set_rotation_matrix the target must be the aligned source and the error 0, then set_target(T) gets the full oracle; 2-D rotations and 3-D similarities are not vectorizable in menpo (NotImplementedError) and reflections have no rotation / similarity parameter vector, so those routes are not letters there; every alignment also answers apply(batch_size=2) and as_non_alignment() consistently" % ", ".join(ROUTE_NAMES),
             "argument forms (level 0, members %s, noise %s): float32 / int64 / int32 / int16 / uint8 payload (integer forms: the generic points x %g rounded; an integer target with a non-integer source is the exact image, source = member^-1(target)), python lists / tuples, read-only, non-contiguous and Fortran-ordered arrays (copy=False), options as numpy bools; the reference works in float64 on exactly the values passed; float32 letters use tolerances of 1e-3..1e-4; combinations the unchanged tree mishandles (listed under argument_form_exclusions) are not letters" % (", ".join(FORM_FAMILIES), NOISE_FORM, INT_SCALE),
             "noise = level x one fixed direction per (n, d) drawn from the seed; 'arbitrary' targets are unrelated generic point sets",
